@@ -1,0 +1,26 @@
+//! Verification hooks (only compiled with `--cfg rustic_rs_rustic_core_verif`).
+//!
+//! Thin public wrappers around crate-private items so that the external
+//! correspondence harness can drive them. One sub-module per property; nothing
+//! here is compiled or reachable in a normal build.
+#![allow(missing_docs, clippy::all, clippy::pedantic, clippy::nursery, dead_code, unused_imports)]
+
+pub mod c01;
+pub mod c02;
+pub mod c03;
+pub mod c04;
+pub mod c05;
+pub mod c06;
+pub mod c07;
+pub mod c08;
+pub mod c10;
+pub mod c11;
+pub mod c12;
+pub mod c13;
+pub mod c14;
+pub mod c15;
+pub mod c16;
+pub mod c17;
+pub mod c18;
+pub mod c19;
+pub mod c20;
